@@ -141,6 +141,14 @@ def judge_types(case):
     if T.shape[0] != T.shape[1]:
         v.nontrivial = True
         v.classes.append("rectangular-T")
+    if np.all(T == np.round(T)):  # an integer-typed transformation (e.g. a permutation matrix) is the same transformation
+        v.classes.append("integer-T")
+        for q in quants[:4]:
+            if not q.density:
+                gi = lib(q, bt, env, T.astype(int))
+                gf = lib(q, bt, env, T)
+                if gi.shape != gf.shape or not np.allclose(gi, gf, rtol=1e-12, atol=0):
+                    return v.fail(f"{q.name}: an integer-typed transform gives a different result from the same matrix as floats")
     for q in quants:
         if q.density:
             got = lib(q, bt, env, T, G2)
